@@ -37,6 +37,8 @@ SPEC = {
         'AITB.Trie.RIF_insert',
         'AITB.Trie.RIF_erase',
         'AITB.Trie.ft_filter_mem',
+        'AITB.Trie.ft_filter_nodup',
+        'AITB.Trie.ft_size_spec',
         'AITB.Trie.fastertrie_refines_spec',
         'AITB.Trie.matchPart_spec',
         'AITB.Trie.advPart_spec',
